@@ -63,6 +63,10 @@ type SPConfig struct {
 	SigStyle   KeyStyle // KeyNone = no separate signing key
 	SigKeyIdx  int
 	SigCert    *Cert
+	// SharedKeyStores: the *saml2.KeyStore objects handed to the setters are created once per
+	// configuration and handed to every instance built from it (and from copies of it): an
+	// application that keeps one key-store object for several service providers
+	SharedKeyStores *SharedKS
 
 	// Live: re-use (and re-configure in place) the process-wide long-lived SP instead of building a
 	// fresh one. Only for profiles that never sign (the signing context is lazily cached by design).
@@ -80,6 +84,9 @@ type SPConfig struct {
 	Skew time.Duration
 	Loc  *time.Location
 }
+
+// SharedKS holds the key-store objects several SP instances are given.
+type SharedKS struct{ Enc, Sig *saml2.KeyStore }
 
 // liveSP is the long-lived service provider of this process (see SPConfig.Live).
 var liveSP *saml2.SAMLServiceProvider
@@ -168,6 +175,8 @@ func NewSPNode(cfg *SPConfig, simNow func() time.Time) (*SPNode, error) {
 			sp.IDPCertificateStore = ms
 		}
 	}
+	sharedKS = cfg.SharedKeyStores
+	defer func() { sharedKS = nil }()
 	if err := applyKeyRaw(sp, cfg.EncStyle, cfg.EncKeyIdx, cfg.EncCert, false, cfg.EncCertRaw, cfg.EncKeyErr); err != nil {
 		return nil, err
 	}
@@ -196,6 +205,9 @@ func NewSPNode(cfg *SPConfig, simNow func() time.Time) (*SPNode, error) {
 	n.SP = sp
 	return n, nil
 }
+
+// sharedKS is set for the duration of one NewSPNode call (single-goroutine construction).
+var sharedKS *SharedKS
 
 func applyKey(sp *saml2.SAMLServiceProvider, st KeyStyle, keyIdx int, cert *Cert, signing bool) error {
 	return applyKeyRaw(sp, st, keyIdx, cert, signing, nil, nil)
@@ -232,6 +244,16 @@ func applyKeyRaw(sp *saml2.SAMLServiceProvider, st KeyStyle, keyIdx int, cert *C
 	}
 	setter := func() error {
 		ks := &saml2.KeyStore{Signer: k.Signer, Cert: der}
+		if sh := sharedKS; sh != nil {
+			slot := &sh.Enc
+			if signing {
+				slot = &sh.Sig
+			}
+			if *slot == nil {
+				*slot = ks
+			}
+			ks = *slot
+		}
 		if signing {
 			return sp.SetSPSigningKeyStore(ks)
 		}
